@@ -9,7 +9,7 @@
    owned by the generator); the syntax of one prefix NLRI is C15. *)
 From Coq Require Import ZArith Bool List.
 From ExaV Require Import gen.Gen_AttrTable gen.Gen_NlriRegistry model.Model_Nlri model.Model_Update spec.Spec_Wire
-  proofs.Proofs_Nlri proofs.Proofs_Update proofs.Proofs_Update2 proofs.Proofs_Update3.
+  proofs.Proofs_Nlri proofs.Proofs_Update proofs.Proofs_Update2 proofs.Proofs_Update3 proofs.Proofs_Update4.
 Import ListNotations.
 Open Scope Z_scope.
 
@@ -47,6 +47,33 @@ Theorem C02_agrees_with_reference : forall opq s other b r,
                             /\ map entry_of (u_attrs u') = ru_attrs u
   end.
 Proof. exact agrees_with_reference. Qed.
+
+(* ---- Adj-RIB-In (UpdateHandler + Cache.update_cache / update_cache_withdraw; key = Route.index, C15) as a finite
+   map: after a decoded UPDATE the table is (rib - withdrawn) (+) announced, key by key; the last announce of a key
+   wins, and a key that the same UPDATE both announces and withdraws ends withdrawn (announces are stored first) *)
+Theorem C02_ribin : forall r u k,
+  rib_get (ribin_apply true r u) k =
+  if withdraws_key k (u_wd u) then None else
+  match last_announce k (u_ann u) with
+  | Some a => Some (fst a, snd a, u_attrs u)
+  | None => rib_get r k
+  end.
+Proof. exact ribin_apply_map. Qed.
+
+(* composed with C02_agrees_with_reference: after a well-formed UPDATE the table holds exactly the reference's
+   routes, next hops and attribute list *)
+Theorem C02_ribin_reference : forall opq s other b u,
+  plain_sess s -> wfb b ->
+  (forall wb ab nb l, sections b = Some (wb, ab, nb) -> tlvs (length ab) ab = Some l -> forallb modelled l = true) ->
+  ref_update_gen unpack_nlri other (rs_of s) b = Some (RUpdate u) ->
+  exists u', dec_update opq s b = Decoded u' /\ map entry_of (u_attrs u') = ru_attrs u
+    /\ forall r k, rib_get (ribin_apply true r u') k =
+         if withdraws_key k (ru_withdrawn u) then None else
+         match last_announce k (ru_announced u) with
+         | Some a => Some (fst a, snd a, u_attrs u')
+         | None => rib_get r k
+         end.
+Proof. exact ribin_reference. Qed.
 
 (* ---- End-of-RIB: the RFC 4724 markers are recognised for their family ... *)
 Theorem C02_eor_v4 : forall opq s, dec_update opq s [0;0;0;0] = EndOfRib 1 1.
@@ -94,6 +121,8 @@ Proof. exact eor_third_path. Qed.
 
 Print Assumptions C02_agrees_with_reference_attributes.
 Print Assumptions C02_agrees_with_reference.
+Print Assumptions C02_ribin.
+Print Assumptions C02_ribin_reference.
 Print Assumptions C02_eor_v4.
 Print Assumptions C02_eor_mp.
 Print Assumptions C02_eor_only.
